@@ -480,6 +480,13 @@ func (ex *Exec) evalPhis(fr *Frame, b *ssa.BasicBlock, edges []Edge) int {
 				val = MergeV(e.g, v, val)
 			}
 		}
+		if coalesceSlices {
+			if sl, ok := phi.Type().Underlying().(*types.Slice); ok {
+				if rv, ok := val.(RefV); ok && len(rv.Alts) >= 2 {
+					val = ex.coalesce(rv, sl.Elem())
+				}
+			}
+		}
 		phis = append(phis, phi)
 		phiVals = append(phiVals, val)
 	}
